@@ -19,6 +19,8 @@ def render(cmd):
     v = cmd["verb"]
     if "line" in cmd:
         return cmd["line"]
+    if v == "CAP":
+        return "CAP " + cmd["sub"] + (" :" + " ".join(cmd["caps"]) if cmd.get("caps") else "")
     if v == "JOIN":
         s = "JOIN " + ",".join(cmd["chans"])
         if cmd.get("keys") is not None:
@@ -105,6 +107,7 @@ class World:
         self.dead = False
         self.last_snap = None
         self.serial_noise = None  # a random.Random: send grammar-equivalent serialisations
+        self.actions = []  # structured actions in order (for replaying prefixes)
         self.noise_kinds = collections.Counter()
 
     # ------------------------------------------------------------ plumbing
@@ -198,6 +201,8 @@ class World:
         """open a connection and register it under a free nick (macro step)"""
         cid = self.next_cid
         self.next_cid += 1
+        self.actions.append(["connect", dict(nick=nick, user=user, realname=realname, password=password,
+                                             multi_prefix=multi_prefix)])
         try:
             c = wire.Client(self.srv.port, tls=self.tls, timeout=self.watchdog, name=str(cid))
         except OSError as ex:
@@ -233,6 +238,7 @@ class World:
     def act(self, cid, cmd):
         """one command by a registered client, barrier, check"""
         c = self.clients[cid]
+        self.actions.append(["act", cid, cmd])
         line = render(cmd)
         if self.serial_noise is not None:
             line = self.vary(line, self.model.conn[cid]["nick"])
@@ -326,6 +332,7 @@ class World:
     def end_client(self, cid, how="close"):
         """client side ending; waits until the server has forgotten the user"""
         c = self.clients[cid]
+        self.actions.append(["end", cid, how])
         nick = self.model.conn[cid]["nick"]
         self.log(cid, "<%s>" % how)
         pre = self.model.clone()
@@ -378,6 +385,39 @@ class World:
                     break
                 time.sleep(0.002)
         return self.finish_step(None, exp, [], pre, None, ended=cid)
+
+    def end_many(self, cids, hows):
+        """several connections ending at once"""
+        self.actions.append(["end_many", list(cids), list(hows)])
+        pre = self.model.clone()
+        nicks = []
+        self.log(None, "<several at once: %s>" % list(zip(cids, hows)))
+        for cid, how in zip(cids, hows):
+            nicks.append(self.model.conn[cid]["nick"])
+        exp = None
+        for cid in cids:
+            exp = self.model.drop_conn(cid)
+        exp.shape = "end:several"
+        for cid, how in zip(cids, hows):
+            c = self.clients[cid]
+            if how == "rst":
+                c.close_rst()
+            elif how == "midline":
+                c.send_raw(b"PRIVMSG x :unterminated")
+                c.close()
+            else:
+                c.close()
+        for cid, nick in zip(cids, nicks):
+            del self.clients[cid]
+            self.disconnected.add(nick)
+        if self.srv.hooks:
+            deadline = time.monotonic() + 5.0
+            while time.monotonic() < deadline:
+                s = self.srv.snap()
+                if not any(n in s["users"] for n in nicks):
+                    break
+                time.sleep(0.002)
+        return self.finish_step(None, exp, [], pre, None)
 
     def settle(self, cid, exp, pre):
         return self.finish_step(None, exp, [], pre, None)
